@@ -6,7 +6,10 @@ from harness import common
 from harness.common import z, zopt, coq_list, coq_bool, InfraError
 
 DAY = 86400_000_000
-BASE_DAY = 19723            # 2024-01-01, a Monday
+# 2029-01-01, a Monday.  The case clocks lie in the FUTURE of the real clock on purpose: a `now` captured when the
+# module is imported (e.g. a default argument `now=datetime.now()`) is then earlier than the clock of every case, and
+# work reserved "before the current day" shows up as a failing input instead of being masked
+BASE_DAY = 21550
 WINDOW_LO = BASE_DAY - 40
 WINDOW_DAYS = 220
 H = 3600_000_000
@@ -35,7 +38,7 @@ def gen_calendar(rng):
     if r < 0.25:
         return wk([0, 1, 2, 3, 4], I(8))
     if r < 0.35:
-        return wk(sorted(rng.sample(range(7), rng.randint(1, 6))), rng.choice([I(8), I(4), I(2), I(16), F(0.5), I(1)]))
+        return wk(sorted(rng.sample(range(7), rng.randint(1, 6))), rng.choice([I(8), I(4), I(2), I(16), F(0.5), I(1), I(32), I(32)]))
     if r < 0.45:
         return ['wdict', None, None, [[d, rng.choice([I(8), I(4), I(0), I(2), I(1), F(0.5)])] for d in sorted(rng.sample(range(7), rng.randint(1, 7)))]]
     if r < 0.55:   # weekly valid from/until a date, otherwise nothing / another calendar
@@ -78,7 +81,8 @@ def gen_case(rng, force_dir=None):
     fwd = (rng.random() < 0.6) if force_dir is None else (force_dir == 'fwd')
     n = rng.choice([1, 2, 2, 3, 3, 4, 4, 5, 5, 6, 7, 8, 9, 10, 12])
     pb_day = rng.randint(0, 6)
-    pb_tod = rng.choice([0, 0, 0, 0, 10 * H, 6 * H, 18 * H + 30 * 60_000_000])
+    # (a bound with microseconds: a day start computed with replace(hour=0, minute=0, second=0) keeps them)
+    pb_tod = rng.choice([0, 0, 0, 0, 10 * H, 6 * H, 18 * H + 30 * 60_000_000, 7 * H + 123_456, 13 * H + 500_000])
     pbound = day_us(pb_day, pb_tod)
     aim = rng.random() if fwd else 1.0      # aimed leaf (see below): 'late start, little work' / 'start before the clock'
     r = rng.random()
@@ -320,6 +324,88 @@ def gen_offgrid_case(rng):
     return c
 
 
+def gen_tod_calendar(rng):
+    """a calendar whose validity begins / ends at a TIME OF DAY (outside the scheduler model, whose capacity is a
+    function of the day): joins Monday 12:00, leaves Friday 15:30, ..."""
+    I = lambda v: ['i', v]
+    tod = lambda: rng.choice([6, 9, 12, 15, 18]) * H + rng.choice([0, 0, 30 * 60_000_000])
+    st = day_us(rng.randint(-6, 12), tod()) if rng.random() < 0.8 else None
+    en = day_us(rng.randint(13, 50), tod()) if rng.random() < 0.6 or st is None else None
+    inner = rng.choice([wk([0, 1, 2, 3, 4], I(8), st, en), wk([0, 1, 2, 3, 4, 5, 6], I(rng.choice([4, 8])), st, en),
+                        ['fixed', I(rng.choice([2, 8])), st, en]])
+    r = rng.random()
+    if r < 0.5:
+        return inner
+    if r < 0.8:
+        return ['binc', 'or', inner, wk([1, 3], I(2))]
+    return ['binc', 'add', inner, wk([0, 2, 4], I(4))]
+
+
+def gen_tod_case(rng):
+    """calendars with time-of-day bounds and a bound / clock inside a day: outside the model; the capacity of a day is
+    the calendar's answer for the day's midnight and only the oracles are evaluated (like the off-grid stream)"""
+    c = gen_case(rng)
+    c['offgrid'] = True
+    c['tod_calendars'] = True
+    c['edit_calendars'] = []
+    names = sorted(set(t['resource'] for t in c['tasks']), key=str)
+    c['resources'] = [{'name': nm, 'cal': gen_tod_calendar(rng)} for nm in names if rng.random() < 0.85]
+    if rng.random() < 0.8:
+        pbd = rng.randint(-6, 14)
+        c['pbound'] = day_us(pbd, rng.choice([0, 10, 13, 16, 19]) * H)
+        c['now'] = c['pbound'] + rng.choice([-3 * DAY, -2 * H, 0, H, 5 * H])
+        c['now2'] = None
+        for t in c['tasks']:
+            if t.get('end') is not None and t['end'] > c['now']:
+                t['end'] = None
+        # aimed: a calendar that becomes valid (or stops being valid) ON the day of the bound, at another time of day:
+        # at midnight that day has no capacity although it has some at the time the scheduler is standing at
+        for r in c['resources']:
+            if rng.random() < 0.6:
+                edge = day_us(pbd + rng.choice([0, 0, 0, 1, -1]), rng.choice([6, 8, 9, 12, 21]) * H)
+                if c['dir'] == 'fwd':
+                    r['cal'] = wk([0, 1, 2, 3, 4, 5, 6] if rng.random() < 0.6 else [0, 1, 2, 3, 4], ['i', 8], edge, None)
+                else:
+                    r['cal'] = wk([0, 1, 2, 3, 4, 5, 6] if rng.random() < 0.6 else [0, 1, 2, 3, 4], ['i', 8], None, edge)
+    return c
+
+
+def gen_milestone_summary_case(rng, force_dir=None):
+    """a WBS in which some SUMMARY tasks are flagged as milestones: outside the domain of the scheduler theorems
+    (WFin wants milestones to be leaves, C02 and C07 contradict each other there); run for the outcome and for the
+    literal clauses that need no model (every task dated; reserved work of the working leaves)"""
+    c = gen_case(rng, force_dir)
+    c['edit_calendars'] = []
+    c['outcome_only'] = True
+    parents = sorted(set(t['parent'] for t in c['tasks'] if t['parent'] is not None))
+    if not parents:
+        c['tasks'].append(T(95, 0, resource=rng.choice(['a', 'b', None]), est=rng.choice([8, 64, 100])))
+        parents = [0]
+    for p in rng.sample(parents, rng.randint(1, len(parents))):
+        c['tasks'][p]['milestone'] = True
+        c['tasks'][p]['start'] = c['tasks'][p]['end'] = None
+    return c
+
+
+def robust_work_problems(case, out):
+    """C04's conservation clause evaluated directly on an `outcome_only` observation (exact rationals)"""
+    from fractions import Fraction
+    probs = []
+    fwd = case['dir'] == 'fwd'
+    de = Fraction(case.get('default_estimate') or 0, 8)
+    for k in out.get('work', []):
+        res = Fraction(k['reserved'])
+        works = k['leaf'] and not k['milestone'] and not (fwd and k['user_end'])
+        if works:
+            est = Fraction(k['est']) if k['est'] is not None else de
+            left = max(est - (Fraction(k['spent']) if k['spent'] is not None else 0), 0)
+            if res != left:
+                probs.append('task %r: %s reserved, %s left to do' % (k['id'], res, left))
+        elif res != 0 and not (k['leaf'] and not k['milestone']):
+            probs.append('task %r is a %s and has %s reserved' % (k['id'], 'milestone' if k['milestone'] else 'summary', res))
+    return probs
+
+
 def T(id, parent=None, **kw):
     d = {'id': id, 'parent': parent, 'resource': 'a', 'est': 64, 'spent': None, 'est_float': False, 'start': None,
          'end': None, 'min_start': None, 'milestone': False}
@@ -517,13 +603,14 @@ def run_property(ctx, pid, fail_bits, mismatch_bits, dirs=('fwd', 'bwd'), extra=
     n_off = 0
     if offgrid_fail:
         n_off = n_off_quick if ctx.tier == 'quick' else n_off_thorough
+        n_tod = n_off // 3
         while n_off > 0:
-            c = gen_offgrid_case(ctx.rng)
+            c = gen_tod_case(ctx.rng) if n_off <= n_tod else gen_offgrid_case(ctx.rng)
             if c['dir'] in dirs:
                 cases.append(c)
                 n_off -= 1
     outs, kept, codes = evaluate(ctx, cases)
-    dist = {'offgrid_stream': sum(1 for c, _ in kept if c.get('offgrid')), 'calendar_edited_between_calcs': sum(1 for c, _ in kept if c.get('edit_calendars')),
+    dist = {'offgrid_stream': sum(1 for c, _ in kept if c.get('offgrid')), 'time_of_day_calendar_stream': sum(1 for c, _ in kept if c.get('tod_calendars')), 'calendar_edited_between_calcs': sum(1 for c, _ in kept if c.get('edit_calendars')),
             'aimed_sideways': sum(1 for c, _ in kept if c.get('aimed') == 'sideways'),
             'aimed_staggered_release': sum(1 for c, _ in kept if c.get('aimed') == 'staggered'),
             'calendar_edited_same_scheduler_object': sum(1 for c, _ in kept if c.get('edit_calendars') and c.get('edit_same_scheduler')),
